@@ -489,9 +489,12 @@ class Program:
         self._cg = cg
         return cg
 
-    def reaches(self, src, dst, _seen=None):
-        """Shortest call path from src to dst qualname (list) or None."""
+    def reaches(self, src, dst, within=None):
+        """Shortest call path from src to dst qualname (list) or None; `within`
+        restricts every node of the path to the given module names."""
         cg = self.callgraph()
+        if within is not None and self.funcs[src].module.name not in within:
+            return None
         from collections import deque
         dq = deque([[src]])
         seen = {src}
@@ -500,6 +503,8 @@ class Program:
             if p[-1] == dst:
                 return p
             for nx in sorted(cg.get(p[-1], ())):
+                if within is not None and self.funcs[nx].module.name not in within:
+                    continue
                 if nx not in seen:
                     seen.add(nx)
                     dq.append(p + [nx])
